@@ -45,6 +45,7 @@ def main():
     ap.add_argument("--tier", default="quick")
     ap.add_argument("--only", default="")
     ap.add_argument("--jobs", type=int, default=3)
+    ap.add_argument("--new", action="store_true", help="only the seeds that have no recorded result yet")
     a = ap.parse_args()
     names = sorted(n for n in os.listdir(os.path.join(VERIF, "seeded")) if os.path.isfile(os.path.join(VERIF, "seeded", n, "patch.diff")))
     if a.only:
@@ -54,6 +55,8 @@ def main():
     rp = os.path.join(VERIF, "seeded", "RESULTS.json")
     if os.path.exists(rp):
         results = json.load(open(rp))
+    if a.new:
+        names = [n for n in names if n not in results]
     with ThreadPoolExecutor(max_workers=a.jobs) as ex:
         for name, res in ex.map(lambda n: run_one(n, a.tier), names):
             results[name] = res
